@@ -6,6 +6,8 @@
 (*   DeleteNode(schema, root, p)                       -> DoDelete          *)
 (*   GetNode(schema, root, p)                          -> read-only; the    *)
 (*       harness calls it after every step (it must stutter)                *)
+(*   GetOrCreateNode(schema, root, p)                  -> DoGOC (extension  *)
+(*       beyond the listed properties; enabled with WithGOC)                *)
 (* `act` is a label variable (excluded from the VIEW): the call just made.  *)
 (***************************************************************************)
 EXTENDS DataTree, Json
@@ -48,10 +50,25 @@ DoDelete(p) ==
 
 DelTargets == LeafDP \cup LeafListDP \cup ContDP \cup EntryDP \cup ListDP
 
+\* GetOrCreateNode(p): everything on the way to p exists afterwards (containers allocated, list
+\* entries created with their key leaves); a container or entry p itself exists; a leaf or
+\* leaf-list p is not given a value by the model (the implementation allocates a pointer-typed
+\* leaf with its Go zero value, which the replay tolerates for the target leaf only).  Nothing
+\* else changes.
+WithGOC == FALSE         \* overridden by the configuration of the extension run
+GOC(t, p) == IF p \in LeafDP \cup LeafListDP THEN CreateAlong(t, p) ELSE CreateAlong(t, Append(p, "#"))
+GOCTargets == ContDP \cup EntryDP \cup LeafDP \cup LeafListDP
+DoGOC(p) ==
+  /\ WithGOC
+  /\ tree' = GOC(tree, p)
+  /\ act' = [op |-> "goc", p |-> p,
+             kind |-> IF p \in EntryDP THEN "entry" ELSE SK[SchemaOf(p)]]
+
 Next ==
   \/ \E p \in LeafDP : \E v \in SetVals(p) : DoSet(p, v)
   \/ \E p \in LeafListDP : \E vs \in LLVals : DoSetLL(p, vs)
   \/ \E p \in DelTargets : DoDelete(p)
+  \/ \E p \in GOCTargets : DoGOC(p)
 
 Spec == Init /\ [][Next]_vars
 
@@ -84,6 +101,15 @@ DeleteExact ==
         /\ DeleteAt(tree', act'.p) = tree'                       \* deleting twice = once
         /\ (~DataAtOrBelow(tree, act'.p) =>
               LeafSet(tree') = LeafSet(tree)) ]_vars             \* absent data: only pruning
+
+\* extension: GetOrCreateNode creates only what lies on the way, keeps every value, is idempotent
+GOCLaws ==
+  [][ (act'.op = "goc") =>
+        /\ LeafSet(tree) \subseteq LeafSet(tree')
+        /\ \A x \in LeafSet(tree') \ LeafSet(tree) : IsKeyLeaf(x[1])
+        /\ GOC(tree', act'.p) = tree'
+        /\ (act'.p \in ContDP \cup EntryDP => Exists(tree', act'.p))
+        /\ WellFormed(tree') ]_vars
 
 \* emission of every transition for the Go replay
 Emit ==
